@@ -124,6 +124,7 @@ func Run(c *hx.Ctx) {
 			e2eExt4Rmw(c, rr, id, i)
 		}
 	}
+	runDeep7(c, r.Fork()) // deep7.go: symlink targets with backslashes / long components, squashfs xattrs, FAT flags
 }
 
 type kind int
